@@ -1,7 +1,9 @@
 """C11 -- ShExC and SHACL outputs state the same constraints.
 
-Theorems: Props/C11.v (views_agree / read_back / shapes_agree on C11_dom, the
-cardinality table for all k, C11_dom = full domain minus four root causes).
+Theorems: Props/C11.v (C11_views_agree / C11_read_back / C11_shape(s)_agree on C11_dom =
+the whole well-formed domain, the cardinality table for all k).  The four defects found
+by this check (C11-F1..F4) are fixed in /repo (3370abe, 48b7fcb); their reproducers are
+regression cases under corpus/C11/, replayed first on every run, and must pass.
 
 Per case: ONE real Shaper, shex_graph(SHEXC) then shex_graph(SHACL_TURTLE) with the
 same threshold.  (The second call re-uses the memoised shapes and the SHACL serialiser
@@ -38,7 +40,7 @@ NS_VARIANTS = [None,
                {"http://example.org/": "ex", "http://www.w3.org/1999/02/22-rdf-syntax-ns#": "rdf",
                 "http://example.org/dt/": "dt"}]
 
-FINDING_OF = {"bnode": "C11-F1", "nonliteral": "C11-F2", "tau_card": "C11-F3", "tau_inverse": "C11-F4"}
+FINDING_OF = {}   # root cause name -> id of a `known` finding (none at present)
 
 
 class _Timeout(Exception):
@@ -188,16 +190,7 @@ def row_of_constraint(c):
 # --------------------------------------------------------------------------
 
 def root_cause(t):
-    """known-finding root cause of a ShExC constraint tuple, from the findings' descriptions"""
-    (inv, pred, restr, mn, mx) = t
-    if restr == ("kind", "BNode"):
-        return "bnode"
-    if restr == ("kind", "NONLITERAL"):
-        return "nonliteral"
-    if restr[0] == "value" and inv:
-        return "tau_inverse"
-    if restr[0] == "value" and (mn, mx) != (1, 1):
-        return "tau_card"
+    """known-finding root cause of a ShExC constraint tuple (none at present: every mismatch is a failure)"""
     return None
 
 
@@ -248,6 +241,18 @@ def make_case(g, switches, thr, ns, tag):
     return {"nt": g["nt"] if isinstance(g, dict) else g, "switches": switches, "thr": list(thr), "ns": ns,
             "classes": [c[1] for c in g["classes"] if c[0] == "iri"] if isinstance(g, dict) else None, "tag": tag,
             "ood": g.get("out_of_domain") if isinstance(g, dict) else None}
+
+
+def load_corpus():
+    """pinned regression cases (reproducers of fixed findings, past disagreements): replayed first"""
+    d = os.path.join(core.VERIF, "corpus", "C11")
+    out = []
+    if os.path.isdir(d):
+        for fn in sorted(os.listdir(d)):
+            if fn.endswith(".json"):
+                with open(os.path.join(d, fn)) as f:
+                    out.append(json.load(f)["case"])
+    return out
 
 
 def random_cases(n, rnd):
@@ -425,10 +430,9 @@ def decode_model(r):
         d["view"] = (r[6] == "1", r[7], (kind, r[9]), int(r[10]), None if r[11] == "N" else int(r[11][1:]))
     else:
         d["view"] = None
-    d["dom"], d["wf"] = r[12] == "1", r[13] == "1"
-    d["rc"] = [n for n, f in zip(["bnode", "nonliteral", "tau_card", "tau_inverse"], r[14:18]) if f == "1"]
-    d["shacl_status"] = r[18]
-    d["arcs"] = sorted(r[19:]) if r[18] == "ok" else None
+    d["dom"] = r[12] == "1"
+    d["shacl_status"] = r[13]
+    d["arcs"] = sorted(r[14:]) if r[13] == "ok" else None
     return d
 
 
@@ -453,9 +457,11 @@ def run(tier, seed, replay=None):
             rp = json.load(f)
         cases = [rp["case"]] if "case" in rp else []
         exh = []
+        corpus = []
     else:
         exh = exhaustive_cases()
-        cases = exh + random_cases(20000 if tier == "thorough" else 600, rnd)
+        corpus = load_corpus()
+        cases = corpus + exh + random_cases(20000 if tier == "thorough" else 600, rnd)
     results = core.pool_map(analyse_case, cases, chunksize=16)
 
     mb = core.ModelBin() if bs.model_ok else None
@@ -550,11 +556,6 @@ def run(tier, seed, replay=None):
                 if m["view"] != l["tuple"]:
                     cf = ("shex_view", l["raw"], m["view"], l["tuple"])
                     break
-                rc = root_cause(l["tuple"])
-                if (rc is not None) != (len(m["rc"]) > 0) or (rc is not None and rc not in m["rc"]):
-                    if m["wf"]:
-                        cf = ("root-cause classification", l["raw"], m["rc"], rc)
-                        break
             if cf is None:
                 for sh_, lr in zip([x for x in _shapes_in_order(lines, r)], lrows):
                     if lr[0] != "ok" or lr[1] != sh_:
@@ -695,6 +696,9 @@ def run(tier, seed, replay=None):
         "forms_seen": dict(forms_seen),
         "real_shacl_errors": dict(shacl_errors),
         "known_finding_hits": dict(known_hits),
+        "corpus_cases_replayed_first": len(corpus),
+        "corpus_cases_passing": sum(1 for i in range(len(corpus)) if results[i]["status"] == "ok"
+                                    and not results[i]["oracle"]),
         "rows_not_confirmed_by_statement_objects": rows_unconfirmed,
         "vm_compute_crosschecked": vm_n,
         "disagreements_model_vs_impl": len(corr_fail),
